@@ -112,6 +112,12 @@ CHECKS["C11"] = dict(
    text="MCLexer: per skeleton (10 quick / 18 thorough small documents covering every node kind, marker kind and first-token kind) every assignment of 18 layout gaps (blanks, newlines, CRLF, line / block comments with newlines, docstrings of 5 shapes followed by 0-2 newlines or another comment) with <= 2 (3) non-trivial gaps: every recorded position is the start of the node's first token and every docstring is the adjacent one; negative controls: each of the three scanner repairs switched off, and the property without the recorded finding. MCQuote: every literal body <= 4 (5) bytes over 14 bytes forming all escape kinds, both styles: unquote = meaning; negative control = pinned quote.go. A deterministic sample of both models' states plus 400 (6000) random full-grammar documents with random layout, and 1500 (40000) random / token-mutated byte strings, are parsed by idl.Config.Parse and idl.Parse; TLC recomputes from each script the true and the model-predicted position and docstring of every node and compares tree shape, names, literal values, positions, docstrings, the ast.Walk order with parents, and for all inputs: no panic, program xor non-empty errors, errors inside the document, both entry points agree.",
    note="Trusted: TLC, the pretty-printer's knowledge of the grammar (which marker a node's position comes from), byte-based columns. Three recorded findings are matched by structured classes (position read before the token; equal constants share a position; '/**/' opens a docstring).")
 
+CHECKS["C06"] = dict(
+   level="model_checking", ref="DESIGN.md section 5 (C06), GoNames.tla",
+   technique="TLA+ model of the generator's naming and reservation design (GoNames.tla: goCase / constantName over abstract identifiers, package-level declared names, per-struct fields, accessors and generated methods, checkReservedIdentifier) checked by TLC over every pair of definitions / fields / parameters / enum items from an identifier pool built to collide (MCGoNames.tla: accepted => builds, non-clashing => accepted; negative control = reservations as pinned), plus TLC-enumerated valid type / default / constant shapes (MCGoShapes.tla); the explored programs and hand-written package / annotation / option families generated by the real thriftrw binary into a scratch module and compiled by go build; outcomes judged by TLC (C06Trace.tla), compilation verdicts from the Go compiler",
+   text="MCGoNames: 45 identifiers (case variants, initialisms, SCREAMING_CASE, leading / trailing underscores, Go keywords, names of generated methods, accessors and package-level declarations) x 7 definition kinds x 2, struct / union / exception fields x 2 x optionality, function parameters x 2, enum items x 2, enum item meeting a definition: 113k programs; invariants ModelAccepts => ModelBuilds and Safe => ModelAccepts for option sets all-on / all-off. A sample (every 30th (3rd) program whose names meet somewhere, every 400th (40th) other) x 9 option sets, every 6th (every) of 1219 type-expression x position shapes (constants, defaults, typedef chains, parameters, returns), and ~100 programs on file and package names (std / runtime package names, Go keywords, digits, hyphens, same base name in two directories, diamond and upward includes), go.name / go.label / go.tag / go.type / go.redact annotations, enums with shared / extreme values, functions, keyword identifiers, split generation (--no-types + --no-constants, --no-recurse per file, --output-file) are generated and built. TLC checks per program: the generator exits 0 or 1 without a panic, accepted => go build succeeds, Safe and IDL-valid (or expected valid) => accepted, rejections carry a message; conformance: acceptance, build outcome and declared top-level names as the model predicts.",
+   note="Trusted: TLC, the Go compiler as the oracle for 'builds', the renderer of abstract programs to IDL, go/parser for declared names. The model's clash predicate is used only conservatively (Safe) for verdicts.")
+
 NOT_YET = {}
 
 def main():
